@@ -75,11 +75,12 @@ fn gen_history(r: &mut Rng, n: usize) -> (Vec<COp>, Vec<COp>) {
         };
         let kind = if k == "num" && (kind == "set" || kind == "set-safe") { "increment" } else { kind };
         let (line, key) = match kind {
-            "set" => (format!("set {} v{}", k, uniq), k.to_string()),
-            "set-safe" => (format!("set-safe {} {} s{}", k, r.below(4), uniq), k.to_string()),
+            // a third of the values come from a pool of two, so that a key is also written with the value it already holds
+            "set" => (if r.chance(1, 3) { format!("set {} same{}", k, r.below(2)) } else { format!("set {} v{}", k, uniq) }, k.to_string()),
+            "set-safe" => (if r.chance(1, 3) { format!("set-safe {} {} same{}", k, r.below(4), r.below(2)) } else { format!("set-safe {} {} s{}", k, r.below(4), uniq) }, k.to_string()),
             "remove" => (format!("remove {}", k), k.to_string()),
             "increment" => (format!("increment {} {}", k, r.range(1, 5)), k.to_string()),
-            "create-user" => (format!("create-user u{} secret{}", uniq % 2, uniq), format!("$$user_u{}", uniq % 2)),
+            "create-user" => (if r.chance(1, 3) { format!("create-user u{} secret", uniq % 2) } else { format!("create-user u{} secret{}", uniq % 2, uniq) }, format!("$$user_u{}", uniq % 2)),
             "set-permissions" => (format!("set-permissions u{} rw k*", uniq % 2), format!("$$permission_$u{}", uniq % 2)),
             _ => ("snapshot false".to_string(), String::new()),
         };
